@@ -270,6 +270,8 @@ type runner struct {
 	s   *sut
 	m   *model
 	res *report.Result
+	// set by apply() when re-inserting an existing edge changed an ordered answer; reported by compare()
+	reinsertDiff string
 }
 
 // verOf: the version a reference to key k carries: the node's current version when it exists,
@@ -369,8 +371,20 @@ func (r *runner) apply(o Op) (err error) {
 		}
 	case "edge":
 		fv, tv := r.verOf(o.From), r.verOf(o.To)
+		// "re-inserting an existing edge changes nothing": when the very same edge (same endpoints under the same
+		// versions, same kind) is already there, every ordered answer must read the same before and after
+		before := ""
+		me := mEdge{baseId(o.From), baseId(o.To), o.EdgeKind}
+		if ev, ok := m.edgeVers[me]; ok && ev == [2]int{fv, tv} {
+			before = r.orderedFingerprint()
+		}
 		s.g.AddEdge(s.key(o.From, fv), s.key(o.To, tv), symboldg.SymbolEdgeKind(o.EdgeKind), nil)
 		m.addEdge(baseId(o.From), baseId(o.To), o.EdgeKind, fv, tv)
+		if before != "" {
+			if after := r.orderedFingerprint(); after != before {
+				r.reinsertDiff = fmt.Sprintf("ordered answers before re-inserting %s: %s | after: %s", edgeStr(me.from, me.to, me.kind), before, after)
+			}
+		}
 	case "unedge":
 		fv, tv := r.verOf(o.From), r.verOf(o.To)
 		// use the versions the stored edge carries, if any (a reference always names the live node)
@@ -425,8 +439,51 @@ func nodeSet(ns []*symboldg.SymbolNode) map[string]bool {
 var allKinds = []common.SymKind{common.SymKindStruct, common.SymKindAlias, common.SymKindEnum, common.SymKindField, common.SymKindConstant, common.SymKindBuiltin, common.SymKindSpecialBuiltin, common.SymKindController, common.SymKindReceiver}
 
 // compare evaluates every public query on both sides; returns a description of the first mismatch.
+// orderedFingerprint lists, for every live key, the outgoing edges with their ordinals and the
+// ordinal-sorted children and parents exactly in the order the graph returns them.
+func (r *runner) orderedFingerprint() string {
+	var sb strings.Builder
+	sorted := &symboldg.TraversalBehavior{Sorting: symboldg.TraversalSortingOrdinalAsc}
+	for k := 0; k < nKeys; k++ {
+		key := r.s.key(k, r.verOf(k))
+		n := r.s.g.Get(key)
+		if n == nil {
+			continue
+		}
+		sb.WriteString(keyName(k) + "{")
+		var es []string
+		for _, d := range r.s.g.GetEdges(key, nil) {
+			es = append(es, fmt.Sprintf("%s#%d", edgeStr(d.Edge.From.BaseId(), d.Edge.To.BaseId(), string(d.Edge.Kind)), d.Ordinal))
+		}
+		sortStrings2(es)
+		sb.WriteString(strings.Join(es, ",") + " ch:")
+		for _, c := range r.s.g.Children(n, sorted) {
+			sb.WriteString(c.Id.BaseId() + ">")
+		}
+		sb.WriteString(" pa:")
+		for _, c := range r.s.g.Parents(n, sorted) {
+			sb.WriteString(c.Id.BaseId() + ">")
+		}
+		sb.WriteString("} ")
+	}
+	return sb.String()
+}
+
+func sortStrings2(s []string) {
+	for i := 1; i < len(s); i++ {
+		for j := i; j > 0 && s[j] < s[j-1]; j-- {
+			s[j], s[j-1] = s[j-1], s[j]
+		}
+	}
+}
+
 func (r *runner) compare() (kind string, detail string) {
 	s, m := r.s, r.m
+	if r.reinsertDiff != "" {
+		d := r.reinsertDiff
+		r.reinsertDiff = ""
+		return "reinsertion-changed-an-answer", d
+	}
 	outE, inE := map[string][]mEdge{}, map[string][]mEdge{}
 	for e := range m.edges {
 		outE[e.from] = append(outE[e.from], e)
